@@ -101,7 +101,7 @@ End NoFailEv.
 
 (* ---------------------------------------------------------------- the switch, junction exposed *)
 
-Lemma scss_link_j d lib hd np pH pP : wf_store (store d) -> hd <> np ->
+Lemma scss_link_j d lib hd np pH pP : wf_store (store d) -> lib <> 0 -> hd <> np ->
   chain (store d) hd lib pH -> chain (store d) np lib pP ->
   (forall f t e, undo_chain f d lib = Some (lib :: t) -> In e pP -> ~ In (key e) t) ->
   exists C R Uh,
@@ -119,10 +119,14 @@ Lemma scss_link_j d lib hd np pH pP : wf_store (store d) -> hd <> np ->
                      end
          end).
 Proof.
-  intros Hwf Hne HH HP Htail.
+  intros Hwf Hlib0 Hne HH HP Htail.
   destruct (meet _ _ _ _ Hwf HH np pP HP) as (C & R & j & HeqP & HR & Hdis & Hj).
-  destruct (undo_chain_chain d Hwf _ _ _ HH (fuel_of d) (enough_fuel_of d hd)) as [t Ht].
-  destruct (undo_tail d Hwf _ _ _ HH _ _ Ht) as [f0 Hf0].
+  destruct (undo_chain_chain d Hwf _ _ _ HH Hlib0 (fuel_of d) (enough_fuel_of d hd)) as [t Ht].
+  destruct (undo_tail d Hwf _ _ _ HH Hlib0 _ _ Ht) as [f0 Hf0].
+  assert (Hj0 : j <> 0).
+  { destruct Hj as [[_ ->]|(C0 & ej & Uh & HC & Hk & HpH)]; [exact Hlib0|].
+    rewrite <- Hk. apply (ws_id _ Hwf ej). eapply chain_in; [exact HH|]. rewrite HpH, HC.
+    apply in_or_app. left. apply in_or_app. right. left. reflexivity. }
   assert (Hsplit : exists Uh rest, pH = C ++ Uh /\ rev (map key pH) ++ lib :: t = rev (map key Uh) ++ j :: rest /\ ~ In j (rev (map key Uh))).
   { destruct Hj as [[-> ->]|(C0 & ej & Uh & -> & Hk & HpH)].
     - exists pH, t. repeat split. intros Hin. apply in_rev in Hin. apply in_map_iff in Hin as (e & Hke & Hin).
@@ -137,7 +141,7 @@ Proof.
   unfold sent_chain_switch_segments. destruct (N.eqb_spec hd np) as [E|_]; [contradiction|].
   unfold chain_switch_segments. rewrite Ht.
   assert (Hredo : redo_chain (fuel_of d) d (rev (map key pH) ++ lib :: t) np [] = Some (Some (map key R ++ [], j))).
-  { apply redo_chain_chain; [exact Hwf | exact HR | | | apply enough_fuel_of].
+  { apply redo_chain_chain; [exact Hwf | exact HR | exact Hj0 | | | apply enough_fuel_of].
     - intros e He. destruct (memN (key e) (rev (map key pH) ++ lib :: t)) eqn:M; [|reflexivity].
       exfalso. apply memN_in in M. apply in_app_or in M as [M|[M|M]].
       + apply in_rev in M. apply (proj1 (Hdis e He)). exact M.
@@ -183,7 +187,7 @@ Section FixedLibEv.
   Hypothesis Hundo : f_undo (c_filter cfg) = true.
   Hypothesis Hincl : c_incl cfg = false.
 
-  Hypothesis U_id : forall b, In b U -> bid b <> 0 /\ bparent b <> 0 /\ bid b <> bparent b.
+  Hypothesis U_id : forall b, In b U -> bid b <> 0 /\ bid b <> bparent b.
   Hypothesis U_uniq : forall x y, In x U -> In y U -> bid x = bid y -> x = y.
   Hypothesis U_up : forall x y, In x U -> In y U -> bparent x = bid y -> bnum y < bnum x.
   Hypothesis L_id : ri r0 <> 0.
@@ -456,7 +460,9 @@ Section FixedLibEv.
     pose proof HI as [Hnd HU Hl Hlc Hh].
     pose proof (wf_of_U U U_id U_up _ Hnd HU) as Hwf.
     destruct (find (bid b) (store (db s))) as [e|] eqn:Hf.
-    { exists s, [], S. rewrite (fk_step_old U cfg Hincl U_id U_uniq s b e HU Hb Hf Hwf).
+    { exists s, [], S.
+      assert (Hlz : ri (libref (db s)) <> 0) by (destruct Hl as [-> _]; exact L_id).
+      rewrite (fk_step_old U cfg Hincl U_id U_uniq s b e HU Hb Hf Hwf (stored_root_unsent U r0 U_uniq L_id _ b e HU Hb Hf Hwf Hlc) Hlz).
       assert (In (bid b) (keys (store (db s)))) by (apply find_is_some_in; eauto).
       split; [reflexivity|]. split; [reflexivity|]. split; [exact HI|]. split; [exact Hseen|].
       split; [apply c04_step_quiet | apply SkSame; auto]. }
@@ -530,7 +536,7 @@ Section FixedLibEv.
           split; [exact Hs3|]. split; [|apply Hkind; exact Hk3].
           apply (c04_step_of_trigger (store (db s1)) _ S b pP pP [] [] [] None evs HU1 Hnd1 Hc);
             [rewrite app_nil_r; reflexivity | rewrite app_nil_r; exact HS | reflexivity | exact Hev | exact Happ].
-      + destruct (scss_link_j (db s) (ri r0) (bid hd) (bparent b) pH pP Hwf Hneq HcH HcP0) as (C & R & Uh & HP & HH & Hsc).
+      + destruct (scss_link_j (db s) (ri r0) (bid hd) (bparent b) pH pP Hwf L_id Hneq HcH HcP0) as (C & R & Uh & HP & HH & Hsc).
         { intros f t e0 Hu He0. exact (tail_disjoint U r0 cfg U_id U_up L_id L_num L_up (db s) pP (bparent b) Hl HU Hnd HcP0 f t e0 Hu He0). }
         rewrite Hsc in Hsw. injection Hsw as <- <- Hjunc.
         destruct (trigger_ev s1 S b pP C R Uh junc HI1 Hseen1 Hb Hc HP) as (s3 & Rs & Ru & evs & HR & Hev & Hrun & Happ & HI3 & Hk3 & Hs3).
